@@ -3181,6 +3181,12 @@ class Mailbox:
 
         mbox_match = ref_mbox_name + mbox_match
 
+        # INBOX is case-insensitive (rfc3501 5.1). It is listed under the
+        # name `INBOX`, which is also what the regex is matched against.
+        #
+        if mbox_match.lower() == "inbox":
+            mbox_match = "INBOX"
+
         # Escape regex metacharacters, then convert IMAP wildcards.
         #
         mbox_match = "^" + re.escape(mbox_match) + "$"
@@ -3287,11 +3293,19 @@ class Mailbox:
         # NOTE: We do not present to the IMAP client any folders that
         #       have the flag 'ignored' set on them.
         #
+        # NOTE: The inbox is stored as `inbox` but is listed as, and has to be
+        #       matched as, `INBOX`.
+        #
         sub_clause = "AND subscribed=1" if filter_subscribed else ""
+        inbox_clause = (
+            "OR name='inbox'"
+            if re.search(mbox_re, "INBOX")
+            else "AND name<>'inbox'"
+        )
         query = (
-            "SELECT name,attributes,subscribed FROM mailboxes WHERE name "
-            f"regexp ? {sub_clause} AND attributes NOT LIKE '%ignored%' "
-            "ORDER BY name"
+            "SELECT name,attributes,subscribed FROM mailboxes WHERE (name "
+            f"regexp ? {inbox_clause}) {sub_clause} AND attributes NOT LIKE "
+            "'%ignored%' ORDER BY name"
         )
         logger.debug("*** Query: %s", query)
         async for mbox_name, attributes, subscribed in server.db.query(
